@@ -146,6 +146,51 @@ def entry_line(e):
     return " ".join(parts)
 
 
+def s2t_line(e):
+    """E case (props/C04/h_s2t.c): sqfs2tar's write_entry; xattrs in image order, file data included"""
+    parts = ["E", str(e["counter"]), str(e["hl"]), str(e["mode"]), str(e["uid"]), str(e["gid"]), str(e["size"]),
+             str(e["mtime"]), str(e["rdev"]), hexs(e["name"]), "~" if e["target"] is None else hexs(e["target"]),
+             hexs(e.get("data", b"")), str(len(e["xattr"]))]
+    for k, v in e["xattr"]:
+        parts += [hexs(k), hexs(v)]
+    return " ".join(parts)
+
+
+def s2t_cases(rnd, n):
+    """entries as sqfs2tar's iterator hands them to write_entry; every entry type, 0-3 xattrs (two or more
+    on a good share: the order is what the case is about), file data around the 512-byte record size"""
+    ents = []
+    for i in range(n):
+        force = dict(pxattr=0.75)
+        if i < 8:
+            force.update(ftype=[T.S_IFREG, T.S_IFDIR, T.S_IFLNK, T.S_IFSOCK][i % 4], hl=0, nlen=[10, 100][i // 4], pxattr=1.0)
+        e = rand_entry(rnd, force)
+        if len(e["xattr"]) == 1 and rnd.random() < 0.6:
+            e["xattr"].append((b"user." + rname(rnd, rnd.choice([1, 4, 30]), slash=False).replace(b"=", b"e"), rvalue(rnd, rnd.choice([0, 3, 80]))))
+        if len({k for k, _ in e["xattr"]}) != len(e["xattr"]):
+            e["xattr"] = e["xattr"][:1]
+        e["data"] = b""
+        if (e["mode"] & 0o170000) == T.S_IFREG and not e["hl"]:
+            e["data"] = rvalue(rnd, rnd.choice([0, 1, 100, 511, 512, 513, 1024, 1500, 5000]))
+            e["size"] = len(e["data"])
+        ents.append(e)
+    return ents
+
+
+def renumber_s2t(lines):
+    """write_entry counts its calls itself: the k-th E line of a run carries counter k"""
+    out = []
+    k = 0
+    for l in lines:
+        if l.startswith("E "):
+            t = l.split(" ")
+            t[1] = str(k)
+            k += 1
+            l = " ".join(t)
+        out.append(l)
+    return out
+
+
 def header_cases(rnd, n):
     ents = []
     # boundary sweep first
@@ -228,7 +273,7 @@ def rand_sparse_new(rnd, small=False):
 
 def std_kw(rnd):
     return dict(mode=rnd.choice([0o644, 0o755, 0o7777, 0]), uid=rnd.choice(BOUND[:22]), gid=rnd.choice(BOUND[:22]),
-                mtime=rnd.choice(SBOUND[:8] + [1057296600, 2 ** 33]), num=rnd.choice([T.octal, T.octal, T.base256]))
+                mtime=rnd.choice(SBOUND[:8] + [1057296600, 2 ** 33, -2 ** 63, -2 ** 63 + 1]), num=rnd.choice([T.octal, T.octal, T.base256]))
 
 
 def rand_stream(rnd, small=False):
@@ -290,10 +335,21 @@ def rand_stream(rnd, small=False):
     if k < 0.86:     # PAX sparse 0.0 / 0.1 / 1.0
         smap = rand_sparse_new(rnd, small)
         real = smap[-1][0] + smap[-1][1] + rnd.choice([0, 1, 1000])
-        ver = rnd.choice(["0.0", "0.1", "1.0"])
+        ver = rnd.choice(["0.0", "0.1", "1.0", "0.0", "0.1", "1.0", "mixed"])
         data = rvalue(rnd, min(sum(c for _, c in smap), 1500))
         name = rname(rnd, 9)
-        if ver == "0.0":
+        if ver == "mixed":
+            # 0.0 records, then a 0.1 map (replaces and frees the list), then 0.0 records again: the list
+            # the later records build must start afresh
+            i, j = sorted((rnd.randint(0, len(smap)), rnd.randint(0, len(smap))))
+            recs = [(b"GNU.sparse.size", b"%d" % real)]
+            for o, c in smap[:i]:
+                recs += [(b"GNU.sparse.offset", b"%d" % o), (b"GNU.sparse.numbytes", b"%d" % c)]
+            recs.append((b"GNU.sparse.map", b",".join(b"%d,%d" % p for p in (smap[i:j] or smap[:1]))))
+            for o, c in smap[j:]:
+                recs += [(b"GNU.sparse.offset", b"%d" % o), (b"GNU.sparse.numbytes", b"%d" % c)]
+            body = data
+        elif ver == "0.0":
             recs = [(b"GNU.sparse.size", b"%d" % real), (b"GNU.sparse.numblocks", b"%d" % len(smap))]
             for o, c in smap:
                 recs += [(b"GNU.sparse.offset", b"%d" % o), (b"GNU.sparse.numbytes", b"%d" % c)]
